@@ -279,8 +279,9 @@ def transitions(chk, prog):
             if rx is None or is_t is None:
                 chk.fail('R4', row + ':' + fld, fn_loc(fcp), 'complete_probe decides %s on conditions outside the specified '
                          'transition (decisions %s)' % (fld, dec), key='R4|unknown-decision|' + fld)
-            elif (len(got) == 1 and re.fullmatch(rx, got[0])) or (not got and fld in unchanged):
-                chk.ok('R4', row + ':' + fld, (got[0] if got else 'unchanged')[:120])
+            elif (got and re.fullmatch(rx, got[-1])) or (not got and fld in unchanged):
+                # several stores to one field on a trace: the last one is the state the function leaves (&mut self: nothing observes the others)
+                chk.ok('R4', row + ':' + fld, (got[-1] if got else 'unchanged')[:120])
             else:
                 chk.fail('R4', row + ':' + fld, fn_loc(fcp),
                          'on an Awaited slot with %s, TracerState.%s becomes %s; the transition requires %s' % (
